@@ -15,7 +15,7 @@ P4 output-path faults: WriteSolFile closes the file explicitly (close() throws),
 U1 unsupported constructs raise UnsupportedError unconditionally.
 """
 import re
-from ..cfg import reach_calls, expand_locals, norm_facts, xrender, Facts, kids, strip, walk, cv, render, call_args, call_object
+from ..cfg import MiniInt, CaseThrow, reach_calls, expand_locals, norm_facts, xrender, Facts, kids, strip, walk, cv, render, call_args, call_object
 from ..cfg import short_loc as _short_loc
 from ..facts import export, export_many, AnalysisBroken
 
@@ -608,4 +608,48 @@ def run(rep, ctx):
             continue
         seen.add(k)
         u1.check(ok, k, short_loc(f.loc), "VisitUnsupported throws UnsupportedError on every path")
+    # ---- B1: an infinite body bound of an indicator needs a usable big-M, otherwise the conversion fails with a diagnosis ------
+    b1 = rep.rule("C09.B1", "GUARD", "indicator linearisation with an unbounded body: the default big-M replaces the bound iff it is positive; otherwise "
+                  "the conversion raises ConstraintConversionFailure (reported as a failure, not a model with an invented bound)", floor=2)
+    Fi = Facts(export_many([dict(unit="solvers/visitor/visitor-modelapi-connect.cc",
+                                 fn=[r"mp::IndicatorLin(GE|LE)Converter_MIP::ConvertImplication(GE|LE)"], repo=repo)]))
+    for nm_, sgn_ in (("ConvertImplicationGE", -1.0), ("ConvertImplicationLE", 1.0)):
+        gs = [g for g in Fi.funcs if g.name == nm_ and not g.is_dependent() and g.cfg is not None]
+        if not gs:
+            raise AnalysisBroken("C09.B1: %s not found" % nm_)
+        g = gs[0]
+        bad = []
+        for M_ in (-1.0, 0.0, 1e6):
+            rec_, box = [], {}
+
+            def atom(t_, n_, env_, M_=M_):
+                if n_["k"] in ("CXXMemberCallExpr", "CallExpr"):
+                    cn_ = (n_.get("callee") or "").split("::")[-1]
+                    if cn_ == "bigMDefault":
+                        return M_
+                    if cn_ == "PracticallyMinusInf":
+                        return -1e20
+                    if cn_ == "PracticallyInf":
+                        return 1e20
+                    if cn_ == "rhs":
+                        return 3.0
+                    if cn_ in ("AddConstraint", "sort_terms", "add_term", "negate", "set_rhs", "GetBody"):
+                        rec_.append(cn_)
+                        return 0
+                return None
+            mi = MiniInt(Fi, atom)
+            mi.select_only = True         # declarations of constraint objects stay opaque
+            box["mi"] = mi
+            thrown = False
+            try:
+                mi.call(g, [1, 1, sgn_ * 1e300, ("obj", None, None)])
+            except CaseThrow:
+                thrown = True
+            except AnalysisBroken as e_:
+                if "without a return" not in str(e_):
+                    raise AnalysisBroken("C09.B1: %s: %s" % (nm_, e_))
+            if thrown != (M_ <= 0.0):
+                bad.append((M_, "throws" if thrown else "goes on"))
+        b1.check(not bad, "indicator-inf-bound|%s" % nm_, short_loc(g.loc), "%s: with an infinite body bound the conversion fails iff the default big-M is not positive" % nm_,
+                 "%s: (default big-M, outcome) = %s - the run ends without a diagnosis although a bound was invented (or is rejected although big-M is set)" % (nm_, bad))
     return rep
